@@ -213,6 +213,10 @@ def check(run, replay=None):
     if not B.check_layout(run.prog):
         run.inconclusive.append('data layout differs')
         return
+    lm = B.layout_mismatch(run.prog, B.SEARCH_LAYOUT)
+    if lm:
+        run.inconclusive.append('data layout differs from what the harness encodes: %s' % ', '.join(lm))
+        return
     run.extra['explanation'] = __doc__
     jobs = [('LIM', 0), ('ROOT', 1), ('ROOT', 2), ('ITER', 'max-depth-from-go'), ('ITER', 'node-or-time-limits'), ('SCORE', 0)] + [('PV', p) for p in itertools.product((0, 1), repeat=3)]
     run.bounds.append('up to 3 iterations; every limit combination and cut point; PV: abstract game with branching 2 and 3 levels, every table content (8 stored-move cases x symbolic presence/legality), length <= 4')
